@@ -1324,6 +1324,17 @@ static int setup_skb(void)
 	return 0;
 }
 
+/* Fill the stack region the next call will use with 0xA5, so that an uninitialised slot of the kernel program
+ * (e.g. struct padding of a key built on the stack) is visibly garbage instead of accidentally zero. */
+static __attribute__((noinline)) void poison_stack(void)
+{
+	volatile uint8_t junk[24 * 1024];
+	uint8_t *p = (uint8_t *)junk;
+	asm volatile("" : "+r"(p));
+	memset(p, 0xA5, sizeof(junk));
+	asm volatile("" : : "r"(p) : "memory");
+}
+
 static void handle(uint8_t op)
 {
 	switch (op) {
@@ -1543,6 +1554,7 @@ static void handle(uint8_t op)
 			memcpy(sa, p + 52, 16);
 			memcpy(da, p + 68, 16);
 			memcpy(mac, p + 84, 16);
+			poison_stack();
 			__s64 r = route(flag, &l4, sa, da, mac);
 			p_u64((uint64_t)r);
 		}
@@ -1561,6 +1573,7 @@ static void handle(uint8_t op)
 		}
 		if (setup_skb())
 			return;
+		poison_stack();
 		int32_t verdict;
 		if (!strncmp(pd->section, "tc", 2)) {
 			verdict = ((int (*)(struct __sk_buff *))pd->fn)(&K.skb);
@@ -1594,6 +1607,7 @@ static void handle(uint8_t op)
 			return;
 		struct parsed_packet out;
 		memset(&out, 0, sizeof(out));
+		poison_stack();
 		int ret = parse_packet(&K.skb, link_h_len, &out);
 		K.live = 0;
 		p_i32(ret);
@@ -1613,6 +1627,7 @@ static void handle(uint8_t op)
 		K.len = K.linear = 0;
 		K.live = 1;
 		win_out();
+		poison_stack();
 		bool alive = wan_outbound_is_alive(&K.skb, outbound, l4, bpf_htons(dport));
 		K.live = 0;
 		p_u8(alive ? 1 : 0);
